@@ -194,7 +194,8 @@ func corrupt(lines []string, d asm.Dialect, m int, r *Rng) ([]string, string) {
 	case 13:
 		kind = "garbage-line"
 		l := []string{"hello world", "1 2 3 4 5", ", , ,", "MOV.I $ 0 , $ 1 extra", "$ MOV.I 0, $ 1", "\x00\x01", "MOV.I $ 0, $", "a b c d e", "org", "end end",
-			"PIN 7", "pin 7", "pin", "LDP.AB # 1, $ 2", "EQU 1", "FOR 2", "ROF", "\x1a", "\ufeffMOV.I $ 0, $ 1"}[r.Intn(19)]
+			"PIN 7", "pin 7", "pin", "Program \"x\" (length -1) by \"y\"", "Program \"x\" (length 4611686018427387904) by \"y\"", "Program \"x\" (length 3) by \"y\"",
+			"START  MOV.I  $     0, $     1", "       ORG      START", "       END      START", "START", "END START START", "LDP.AB # 1, $ 2", "EQU 1", "FOR 2", "ROF", "\x1a", "\ufeffMOV.I $ 0, $ 1"}[r.Intn(27)]
 		pos := r.Intn(len(out) + 1)
 		out = append(out[:pos], append([]string{l}, out[pos:]...)...)
 	case 14:
